@@ -247,6 +247,34 @@ def deferred(ctx, pt):
                                    'msg': str(e)[:160]})
                 ctx.decided()
                 ctx.sig(('deferred', pos, v.split(':')[0], fn_name), True)
+    # global isotope labels that name no isotope, and adduct ions of an unknown element
+    extra = [('isotope-label', '<bad>PEPTIDE', ('mass', 'comp')), ('isotope-label', '<Xx>PEPTIDE', ('mass', 'comp')),
+             ('isotope-label', '<C13>PEPTIDE', ('mass', 'comp')), ('isotope-label', '<13C><bad>PEPTIDE', ('mass', 'comp')),
+             ('isotope-label', '<99C>PEPTIDE', ('mass',)), ('adduct', 'PEPTIDE/2[+Xx+]', ('mass',)),
+             ('adduct', 'PEPTIDE/1[+Na+,+Qq+]', ('mass',)), ('adduct', 'PEP[Acetyl]TIDE/2[bad]', ('mass',))]
+    for pos, s, fns in extra:
+        for fn_name in fns:
+            i += 1
+            if not ctx.mine(i):
+                continue
+            ctx.begin({'clause': 'deferred', 'string': s, 'function': fn_name})
+            try:
+                pt.parse(s)
+            except BaseException as e:
+                ctx.violation('deferred-parse-rejects-valid-syntax', {'string': s, 'exception': type(e).__name__})
+                ctx.decided()
+                continue
+            try:
+                r = getattr(pt, fn_name)(s)
+                ctx.violation('unresolvable-mod-silently-accepted',
+                              {'string': s, 'function': fn_name, 'returned': repr(r)[:120]})
+            except ValueError:
+                pass
+            except BaseException as e:
+                ctx.violation('unresolvable-mod-wrong-exception',
+                              {'string': s, 'function': fn_name, 'exception': type(e).__name__, 'msg': str(e)[:160]})
+            ctx.decided()
+            ctx.sig(('deferred', pos, s, fn_name), True)
 
 
 def run(ctx):
